@@ -10,6 +10,7 @@ package checks
 import (
 	"bytes"
 	"fmt"
+	"sync"
 	"testing"
 
 	"github.com/absfs/absnfs"
@@ -29,6 +30,9 @@ type c03Case struct {
 	Creator  string   `json:"creator"` // for EXCLUSIVE: same (made by EXCLUSIVE with the same verifier), other (different verifier), plain (not made by EXCLUSIVE)
 	Cache    cacheCfg `json:"cache"`
 	PreLook  bool     `json:"prelookup"` // LOOKUP the name (and list the directory) before the CREATE
+	// Appear > 0: the name is free when the request starts and the object is put there out of band (another
+	// client or a local process) immediately before the server's Appear-th backend call that names it.
+	Appear int `json:"appear,omitempty"`
 }
 
 func (c c03Case) sattr() nfsx.Sattr {
@@ -64,36 +68,49 @@ func runC03(tb stat.TB, c c03Case) {
 	verfA := [8]byte{1, 2, 3, 4, 5, 6, 7, 8}
 	verfB := [8]byte{9, 9, 9, 9, 9, 9, 9, 9}
 	data := c.Data
+	appeared := false
+	if c.Appear > 0 && c.Creator != "plain" {
+		c.Creator = "plain" // an object that appears out of band was not made by an EXCLUSIVE create of this server
+	}
 	abandoned := guard(func() {
 		root := s.mount()
-		switch c.Existing {
-		case "file":
-			if c.How == nfsx.Exclusive && c.Creator != "plain" {
-				// the file is made by an EXCLUSIVE create through the server, then filled directly
-				res := s.nfs(nfsx.ProcCreate, nfsx.ArgsCreate(root, "x", nfsx.Exclusive, nfsx.Sattr{}, verfA))
-				if res.Status != nfsx.OK {
-					stat.Discard(false)
-					panic(abandon{"setup EXCLUSIVE create failed"})
-				}
-				f, err := v.OpenFile("/x", 2, 0)
-				if err != nil {
-					tb.Fatalf("harness: %v", err)
-				}
-				f.WriteAt(data, 0)
-				f.Close()
-			} else {
+		seed := func() {
+			switch c.Existing {
+			case "file":
 				v.SeedFile("/x", 0644, 1, 1, data)
+			case "dir":
+				v.SeedDir("/x", 0755, 1, 1)
+			case "dirfull":
+				v.SeedDir("/x", 0755, 1, 1)
+				v.SeedFile("/x/child", 0644, 1, 1, []byte("child"))
+			case "linkfile":
+				if _, ok := v.PeekLstat("/target"); !ok {
+					v.SeedFile("/target", 0644, 1, 1, data)
+				}
+				v.SeedSymlink("/x", "target", 1, 1)
+			case "linkdangling":
+				v.SeedSymlink("/x", "nowhere", 1, 1)
 			}
-		case "dir":
-			v.SeedDir("/x", 0755, 1, 1)
-		case "dirfull":
-			v.SeedDir("/x", 0755, 1, 1)
-			v.SeedFile("/x/child", 0644, 1, 1, []byte("child"))
-		case "linkfile":
-			v.SeedFile("/target", 0644, 1, 1, data)
-			v.SeedSymlink("/x", "target", 1, 1)
-		case "linkdangling":
-			v.SeedSymlink("/x", "nowhere", 1, 1)
+		}
+		if c.Appear > 0 {
+			if c.Existing == "linkfile" {
+				v.SeedFile("/target", 0644, 1, 1, data)
+			}
+		} else if c.Existing == "file" && c.How == nfsx.Exclusive && c.Creator != "plain" {
+			// the file is made by an EXCLUSIVE create through the server, then filled directly
+			res := s.nfs(nfsx.ProcCreate, nfsx.ArgsCreate(root, "x", nfsx.Exclusive, nfsx.Sattr{}, verfA))
+			if res.Status != nfsx.OK {
+				stat.Discard(false)
+				panic(abandon{"setup EXCLUSIVE create failed"})
+			}
+			f, err := v.OpenFile("/x", 2, 0)
+			if err != nil {
+				tb.Fatalf("harness: %v", err)
+			}
+			f.WriteAt(data, 0)
+			f.Close()
+		} else {
+			seed()
 		}
 		if c.PreLook {
 			s.nfs(nfsx.ProcLookup, nfsx.ArgsDirop(root, "x"))
@@ -101,14 +118,48 @@ func runC03(tb stat.TB, c c03Case) {
 			s.nfs(nfsx.ProcLookup, nfsx.ArgsDirop(root, "x"))
 		}
 		pre := v.Snapshot()
-		preEnt, existed := pre["/x"]
 		verf := verfA
 		if c.Creator == "other" {
 			verf = verfB
 		}
+		if c.Appear > 0 && c.Existing != "none" {
+			var mu sync.Mutex
+			n := 0
+			v.SetBefore(func(call *vfs.Call) {
+				mu.Lock()
+				defer mu.Unlock()
+				if appeared {
+					return
+				}
+				names := false
+				for _, p := range call.Paths {
+					if p == "/x" {
+						names = true
+					}
+				}
+				if !names {
+					return
+				}
+				n++
+				if n != c.Appear {
+					return
+				}
+				if _, ok := v.PeekLstat("/x"); ok {
+					return // the server has created it itself by now
+				}
+				seed()
+				appeared = true
+				pre = v.Snapshot()
+			})
+		}
 		res := s.nfs(nfsx.ProcCreate, nfsx.ArgsCreate(root, "x", c.How, c.sattr(), verf))
+		v.SetBefore(nil)
 		post := v.Snapshot()
+		preEnt, existed := pre["/x"]
 		desc := fmt.Sprintf("CREATE mode=%d flags=%06b size=%d on existing=%s creator=%s", c.How, c.Flags, c.Size, c.Existing, c.Creator)
+		if appeared {
+			desc += fmt.Sprintf(" (put there out of band just before the server's backend call #%d on the name)", c.Appear)
+		}
 
 		if !existed {
 			if res.Status == nfsx.OK {
@@ -215,7 +266,16 @@ func runC03(tb stat.TB, c c03Case) {
 		return
 	}
 	nt := c.Existing == "file" && len(c.Data) > 0 || c.Existing == "dirfull" || c.Existing == "linkfile"
-	stat.Case(c, nt, "existing_"+c.Existing, fmt.Sprintf("mode_%d", c.How))
+	ls := []string{"existing_" + c.Existing, fmt.Sprintf("mode_%d", c.How)}
+	if c.Appear > 0 {
+		if appeared {
+			ls = append(ls, fmt.Sprintf("appeared_before_call_%d", c.Appear))
+		} else {
+			ls = append(ls, "appear_point_not_reached")
+			nt = false
+		}
+	}
+	stat.Case(c, nt, ls...)
 }
 
 func c03Enumerate() []c03Case {
@@ -230,6 +290,15 @@ func c03Enumerate() []c03Case {
 				}
 				for _, sz := range sizes {
 					out = append(out, c03Case{Existing: ex, Data: data, How: how, Flags: flags, Size: sz, Creator: "plain", Cache: baselineCaches})
+				}
+			}
+		}
+		if ex != "none" {
+			for appear := 1; appear <= 4; appear++ {
+				for _, how := range []uint32{nfsx.Unchecked, nfsx.Guarded, nfsx.Exclusive} {
+					for _, flags := range []int{0, 1, 8, 63} {
+						out = append(out, c03Case{Existing: ex, Data: data, How: how, Flags: flags, Size: 3, Creator: "plain", Cache: baselineCaches, Appear: appear})
+					}
 				}
 			}
 		}
@@ -271,6 +340,7 @@ func genC03(t *rapid.T) c03Case {
 		Creator:  pick(t, "creator", "same", "other", "plain"),
 		Cache:    cacheCfg{AttrTTLns: pick(t, "ttl", int64(1), int64(3600e9)), AttrSize: pick(t, "asize", 1, 10000), DirCache: rapid.Bool().Draw(t, "dc"), Negative: rapid.Bool().Draw(t, "neg")},
 		PreLook:  rapid.Bool().Draw(t, "prelook"),
+		Appear:   pick(t, "appear", 0, 0, 0, 1, 2, 3, 4, 5),
 	}
 	return c
 }
